@@ -12,6 +12,9 @@ CONSTANTS
   NumpyOps <- None_
   ReaderPerBlock = TRUE
   OverwriteTags <- None_
+  StickyKwargs = FALSE
+  LazySetitemLost = FALSE
+  SharedHandle = FALSE
 VIEW View
 INVARIANT SameAsNumpy
 CHECK_DEADLOCK FALSE
